@@ -26,7 +26,7 @@ RULE = (
     "and cost of the current assignment (state carried between calls must not matter)."
 )
 ASSUMPTIONS = ["reference model refmodel/dtl.py; transfer-free = no node classified as a transfer by the documented event model"]
-BUDGET = {"quick": 200, "thorough": 2400}
+BUDGET = {"quick": 600, "thorough": 2400}
 GRID = [(d, l) for d in range(6) for l in range(6)]
 
 
